@@ -674,6 +674,49 @@ class ShadowRef:
 
 _shadows = {}
 
+def run_c06_frames(scn, stats, sigs):
+    """The frame sweep as a replica comparison: py vs c and pycmio vs ccmio at every frame T-state of the chunk."""
+    from . import frames
+    tpl = frames.TEMPLATES[scn['template']]
+    machine = scn['machine']
+    is128 = machine != '48K'
+    frame = 70908 if is128 else 69888
+    regs0 = frames.state_regs(tpl)
+    mem = {'machine': machine, 'patches': [[regs0[PC], bytes(tpl[1]).hex()]], 'o7ffd': scn['o7ffd']}
+    if is128:
+        mem['banks'] = [{'fill': 0}] * 8
+    else:
+        mem['ram'] = {'fill': 0}
+    base = {'kind': 'wstep', 'machine': machine, 'mem': mem, 'regs': regs0, 'tracer': {'present': True, 'in_r_c': True, 'ini': True}, 'reads': [0xFF], 'steps': 1}
+    st = materialise_state(base)
+    for p, q in (('py', 'c'), ('pycmio', 'ccmio')):
+        P, Q = get_replica(p, machine), get_replica(q, machine)
+        P.reset(st)
+        Q.reset(st)
+        rP, rQ = P.sim.registers, Q.sim.registers
+        cmp_regs = tuple(i for i in range(30) if i != 13 and (i != 29 or P.cmio))
+        for t in (t for lo, hi in frames.ranges_of(scn) for t in range(lo, hi)):
+            t_abs = t + frame * scn.get('frame_no', 1)
+            for i in range(30):
+                rP[i] = regs0[i]
+                rQ[i] = regs0[i]
+            rP[T] = rQ[T] = t_abs
+            P.world.n = Q.world.n = 0
+            del P.world.log[:]
+            del Q.world.log[:]
+            P.step()
+            Q.step()
+            stats['events'] = stats.get('events', 0) + 1
+            for i in cmp_regs:
+                if rP[i] != rQ[i]:
+                    raise Violation('C06', 'C06/%s-vs-%s/frames/reg.%s' % (p, q, REGNAMES[i]), '%s vs %s: %s=%d vs %d after %s (%s o7ffd=%d) started at frame-T=%d (T=%d)' % (
+                        p, q, REGNAMES[i], rP[i], rQ[i], tpl[0], machine, scn['o7ffd'], t, t_abs))
+            if P.world.log != Q.world.log:
+                raise Violation('C06', 'C06/%s-vs-%s/frames/ports' % (p, q), 'port logs differ after %s at frame-T=%d' % (tpl[0], t))
+            stats['sim_tstates'] = stats.get('sim_tstates', 0) + rQ[T] - t_abs
+        sigs.add((tpl[0], p))
+    stats['frame_sweep_steps'] = stats.get('frame_sweep_steps', 0) + sum(hi - lo for lo, hi in frames.ranges_of(scn)) * 2
+
 def run_c19_frames(scn, stats, sigs):
     """One instruction template at every frame T-state in [t_lo, t_hi) (see frames.py)."""
     from . import frames
@@ -699,8 +742,8 @@ def run_c19_frames(scn, stats, sigs):
         P.reset(st)
         Q.reset(st)
         rP, rQ = P.sim.registers, Q.sim.registers
-        for t in range(scn['t_lo'], scn['t_hi']):
-            t_abs = t + frame        # second frame: T never negative for the reference
+        for t in (t for lo, hi in frames.ranges_of(scn) for t in range(lo, hi)):
+            t_abs = t + frame * scn.get('frame_no', 1)        # never the first frame: T must not go negative for the reference
             for i in range(30):
                 rP[i] = regs0[i]
                 rQ[i] = regs0[i]
@@ -746,7 +789,7 @@ def run_c19_frames(scn, stats, sigs):
                 raise Violation('C19', 'C19/%s/delay' % q, '%s: extra delay %d, ULA model %d for %s (%s o7ffd=%d) at frame-T=%d\n cycles=%s' % (
                     q, extra, want, tpl[0], machine, o7, t, info.cycles))
             sigs.add((info.slot, t % 8))
-    return (scn['t_hi'] - scn['t_lo']) * 2
+    return sum(hi - lo for lo, hi in frames.ranges_of(scn)) * 2
 
 def run_c19(scn, stats, sigs):
     def bump(k, n=1):
